@@ -6,6 +6,7 @@ CONSTANT Scope     \* which scope the configuration explores (TLC evaluates ever
                    \* so the scopes below take a dummy parameter and only ScopeMsgs is a constant)
 M(k, b) == [kind |-> k, bytes |-> b]
 HeadsQuick(x) == {
+  M("resph", <<72,84,84,80,47,49,46,49,32,50,48,48,32,13,10,84,114,97,110,115,102,101,114,45,69,110,99,111,100,105,110,103,58,32,99,104,117,110,107,101,100,13,10,13,10>>)   (* HTTP/1.1 200 \r\nTransfer-Encoding: chunked\r\n\r\n *),
   M("resp", <<72,84,84,80,47,49,46,49,32,50,48,48,32,13,10,67,111,110,116,101,110,116,45,76,101,110,103,116,104,58,32,51,13,10,13,10,97,98,99>>)   (* HTTP/1.1 200 \r\nContent-Length: 3\r\n\r\nabc *),
   M("resp", <<72,84,84,80,47,49,46,49,32,50,48,48,32,79,75,13,10,67,111,110,116,101,110,116,45,76,101,110,103,116,104,58,32,48,13,10,13,10>>)   (* HTTP/1.1 200 OK\r\nContent-Length: 0\r\n\r\n *),
   M("resp", <<72,84,84,80,47,49,46,49,32,50,48,48,32,13,10,84,114,97,110,115,102,101,114,45,69,110,99,111,100,105,110,103,58,32,99,104,117,110,107,101,100,13,10,13,10,50,13,10,97,98,13,10,48,13,10,13,10>>)   (* HTTP/1.1 200 \r\nTransfer-Encoding: chunked\r\n\r\n2\r\nab\r\n0\r\n\r\n *),
@@ -40,9 +41,14 @@ ChunkWriters(ws) == {[kind |-> "wchunk", data |-> Data(a, 97), sizes |-> <<a>>] 
    \cup {[kind |-> "wchunk", data |-> Data(a + c, 97), sizes |-> <<a, c>>] : a \in ws, c \in ws}
 LenWriters(ws, dns) == {[kind |-> "wlen", data |-> Data(a + c, 97), sizes |-> <<a, c>>, dn |-> d] : a \in ws, c \in ws, d \in dns}
 
-ValidQuick(x) == HeadsQuick(x) \cup ChunkedBodies({1, 2, 3, 10, 16, 17}, {1, 3, 16}) \cup PlainBodies({0, 1, 5})
+\* a message followed by the next one on the same connection (not for close-delimited bodies)
+T_RESP == <<72,84,84,80,47,49,46,49,32,52,48,52,32,13,10,13,10>>      (* HTTP/1.1 404 \r\n\r\n *)
+T_CHUNKS == <<50,13,10,122,122,13,10,48,13,10,13,10>>    (* 2\r\nzz\r\n0\r\n\r\n *)
+Followed(x) == {m @@ [tail |-> T_RESP] : m \in {m \in HeadsQuick(x) : Reference(m.kind, m.bytes).fr.f # "close"}}
+               \cup {m @@ [tail |-> T_CHUNKS] : m \in ChunkedBodies({2, 16}, {3}) \cup {[kind |-> "lbody", bytes |-> Data(n, 97), dn |-> n] : n \in {0, 3}}}
+ValidQuick(x) == Followed(x) \cup HeadsQuick(x) \cup ChunkedBodies({1, 2, 3, 10, 16, 17}, {1, 3, 16}) \cup PlainBodies({0, 1, 5})
               \cup ChunkWriters({1, 2, 16, 17}) \cup LenWriters({0, 2, 3}, {0, 4, 5})
-ValidThorough(x) == HeadsThorough(x) \cup ChunkedBodies({1, 2, 3, 10, 16, 17}, {1, 2, 3, 10, 16, 17}) \cup PlainBodies({0, 1, 2, 5, 20})
+ValidThorough(x) == Followed(x) \cup HeadsThorough(x) \cup ChunkedBodies({1, 2, 3, 10, 16, 17}, {1, 2, 3, 10, 16, 17}) \cup PlainBodies({0, 1, 2, 5, 20})
               \cup ChunkWriters({1, 2, 3, 10, 16, 17}) \cup LenWriters({0, 1, 2, 3}, {0, 3, 4, 5})
 \* three cuts: short messages only
 ThreeCuts(x) == {m \in HeadsQuick(x) : Len(m.bytes) <= 40} \cup ChunkedBodies({1, 2, 3, 16, 17}, {1, 3}) \cup PlainBodies({0, 2, 5})
@@ -67,7 +73,7 @@ MalThorough(x) == MalHeads(5) \cup MalStarts(5) \cup MalChunks(6) \cup Truncatio
 KfScope(x) == {M("req", <<71,69,84,32,47,32,72,84,84,80,47,49,46,49,13,10,13,10>>),                       (* GET / HTTP/1.1\r\n\r\n *)
                M("resp", P_RESP \o <<65,117,116,104,111,114,105,122,97,116,105,111,110,58,32,120>> \o CRLFCRLF),  (* Authorization: x *)
                M("resp", P_RESP \o <<97,98,99>> \o CRLFCRLF)}                                              (* header line without colon *)
-              \cup ZeroWriters(x)
+              \cup ZeroWriters(x) \cup {M("resph", <<72,84,84,80,47,49,46,49,32,50,48,48,32,13,10,84,114,97,110,115,102,101,114,45,69,110,99,111,100,105,110,103,58,32,99,104,117,110,107,101,100,13,10,13,10>>)}
 ScopeMsgs == CASE Scope = "kf" -> KfScope(0) [] Scope = "valid-quick" -> ValidQuick(0) [] Scope = "valid-thorough" -> ValidThorough(0)
               [] Scope = "mal-quick" -> MalQuick(0) [] Scope = "mal-thorough" -> MalThorough(0)
               [] Scope = "three-cuts" -> ThreeCuts(0) [] Scope = "zero-writers" -> ZeroWriters(0) [] Scope = "heads-quick" -> HeadsQuick(0) [] Scope = "heads-thorough" -> HeadsThorough(0)
